@@ -296,6 +296,72 @@ class Rewriter:
                     out.append(T('raw', rep, t.start))
                     k = e + 1
                     continue
+            # R4-join: `let x[: String] = <iterator chain>.join(sep);` only renders text for attributes -> opaque Str
+            if is_id(t, 'let'):
+                j = k + 1
+                depth = 0
+                eq = None
+                while j < n:
+                    x = toks[j]
+                    if x.kind == 'punct' and x.text in OPEN:
+                        j = match_close(toks, j)
+                    elif is_p(x, '=') and eq is None:
+                        eq = j
+                    elif is_p(x, ';'):
+                        break
+                    j += 1
+                if eq is not None and j < n:
+                    sgn = [q for q in range(eq + 1, j) if toks[q].kind not in ('ws', 'comment', 'doc')]
+                    if len(sgn) >= 4 and is_p(toks[sgn[-1]], ')'):
+                        # find the '(' matching the last ')'
+                        op = None
+                        for q in sgn:
+                            if is_p(toks[q], '(') and match_close(toks, q) == sgn[-1]:
+                                op = q
+                        if op is not None:
+                            pi = sgn.index(op)
+                            if pi >= 2 and is_id(toks[sgn[pi - 1]], 'join') and is_p(toks[sgn[pi - 2]], '.'):
+                                self.rec('R4-join', text_of(toks[eq + 1:j]), 'Str::opaque()')
+                                out.extend(self.basic(toks[k:eq], in_const))
+                                out.append(T('raw', '= Str::opaque()', toks[eq].start))
+                                k = j
+                                continue
+            # R7: ensure!(cond, err) -> its cosmwasm-std expansion (so Verus syntax spliced into `cond` is parsed)
+            if is_id(t, 'ensure') and nxt(k) < n and is_p(toks[nxt(k)], '!'):
+                b = nxt(nxt(k))
+                if b < n and is_p(toks[b], '('):
+                    e = match_close(toks, b)
+                    inner = toks[b + 1:e]
+                    depth = 0
+                    cut = None
+                    for q, x in enumerate(inner):
+                        if x.kind == 'punct' and x.text in OPEN:
+                            depth += 1
+                        elif x.kind == 'punct' and x.text in ')]}':
+                            depth -= 1
+                        elif is_p(x, ',') and depth == 0:
+                            cut = q
+                            break
+                    if cut is not None:
+                        cond = self.basic(inner[:cut], in_const)
+                        err = self.basic([x for x in inner[cut + 1:]], in_const)
+                        # drop a trailing comma of the error expression
+                        while err and (err[-1].kind == 'ws' or is_p(err[-1], ',')):
+                            err.pop()
+                        self.rec('R7', 'ensure!(..)', 'if !(..) { return Err(From::from(..)); }')
+                        out.append(T('raw', 'if !(', t.start))
+                        out.extend(cond)
+                        out.append(T('raw', ') { return Err(core::convert::From::from(', t.start))
+                        out.extend(err)
+                        out.append(T('raw', ')); }', t.start))
+                        k = e + 1
+                        # swallow the `;` that follows the macro call
+                        j2 = k
+                        while j2 < n and toks[j2].kind == 'ws':
+                            j2 += 1
+                        if j2 < n and is_p(toks[j2], ';'):
+                            k = j2 + 1
+                        continue
             if t.kind == 'str' and not in_const:
                 rep = 'Str::lit(%s)' % t.text
                 out.append(T('raw', rep, t.start))
@@ -445,12 +511,13 @@ class FnSpec:
         self.body_start = []     # lines inserted at body start (broadcast use / proof blocks)
         self.patches = []        # (before, after) literal source patches declared for this fn
         self.opts = {}
+        self.files = []
 
 
 LABEL = re.compile(r'^\s*@([A-Za-z0-9_.\-]+)\s*(\[([A-Z0-9, ]*)\])?\s*$')
 
 
-def parse_spec(path):
+def parse_spec(path, into=None):
     """Spec file grammar (line oriented):
     ## fn NAME            start of a function section
     ret NAME              name of the return value (default: ret)
@@ -459,9 +526,11 @@ def parse_spec(path):
     closure K             followed by `params`, `ret`, `requires`, `ensures`
     body                  raw lines inserted at the start of the body
     """
-    specs = {}
+    specs = into if into is not None else {}
     if not os.path.exists(path):
-        return specs
+        raise ExtractError('spec file missing: ' + path)
+    n_label_lines = 0
+    n_label_clauses = [0]
     cur = None
     mode = None
     target = None
@@ -473,6 +542,8 @@ def parse_spec(path):
             txt = '\n'.join(clause[2]).strip()
             if txt:
                 target.append((clause[0], clause[1], txt))
+                if clause[0]:
+                    n_label_clauses[0] += 1
         clause = None
 
     for raw in open(path).read().split('\n'):
@@ -480,13 +551,17 @@ def parse_spec(path):
         st = line.strip()
         if st.startswith('## fn '):
             flush()
-            cur = FnSpec(st[6:].strip())
+            nm = st[6:].strip()
+            cur = specs.get(nm) or FnSpec(nm)
             specs[cur.name] = cur
+            cur.files.append(os.path.basename(path))
             mode, target = None, None
             continue
         if cur is None or st.startswith('#!'):
             continue
         m = LABEL.match(line)
+        if m and mode != 'body':
+            n_label_lines += 1
         if st in ('requires', 'ensures', 'invariant') and mode != 'body':
             flush()
             if mode and mode[0] == 'loop' and st == 'invariant':
@@ -554,4 +629,6 @@ def parse_spec(path):
                 clause = (None, [], [])
             clause[2].append(line)
     flush()
+    if n_label_lines != n_label_clauses[0]:
+        raise ExtractError('spec %s: %d `@label` lines but %d labelled clauses were parsed (a clause was dropped)' % (path, n_label_lines, n_label_clauses[0]))
     return specs
